@@ -154,7 +154,7 @@ class Gen:
                 if k == "pause":
                     st.update({"fail_after": rnd.choice([1, 2, 4]) * SEC, "drain_timeout": rnd.choice([0, 1, 3]) * SEC})
                 if k == "stop":
-                    st.update({"msg": H(b"stopped"), "drain_timeout": rnd.choice([0, 1, 3]) * SEC})
+                    st.update({"msg": H(rnd.choice([b"stopped", b"stopped", b""])), "drain_timeout": rnd.choice([0, 1, 3]) * SEC})
                 self.steps.append(st)
                 continue
             acc += p["rollout"]
@@ -398,6 +398,8 @@ def read_hang(work, scenarios):
         os.remove(path)
         last_hang = {"index": h["i"], "scenario": scenarios[h["i"]] if h["i"] < len(scenarios) else None,
                      "limit_s": h["limit_s"], "stacks": h["stacks"][-6000:]}
+        import vlib
+        vlib.HANGS.append(last_hang)
     return last_hang
 
 
